@@ -34,7 +34,7 @@ COMPONENTS = {
              'python sqlite3 + libsqlite3 on a tmpfs file', 'run family: the algorithms named in the rule'],
     'stub': ['user objective (harness world)', 'time.time', 'uuid1', 'joblib (unused: single writer)'],
 }
-PROBES_EXPECTED = ['rewrite_over_other_problem', 'foreign_lock', 'resync_same_id', 'inf_value', 'numpy_scalar', 'reference_to_individual', 'nested_custom', 'sync_all',
+PROBES_EXPECTED = ['single_connection_store', 'reopened_session', 'reopened_in_new_process', 'repeated_id', 'rewrite_over_other_problem', 'foreign_lock', 'resync_same_id', 'inf_value', 'numpy_scalar', 'reference_to_individual', 'nested_custom', 'sync_all',
                    'run_family', 'view_mid_history']
 
 FIELDS = ('vector', 'costs', 'costs_signed', 'population_id', 'custom', 'features')
@@ -194,6 +194,10 @@ def _store(D):
             ostore = None
             mode = {'mode': 'rewrite'}
             ctx.probe('rewrite_over_other_problem')
+        if D.dec('cfg', 'single_connection', 5) == 1:
+            # the documented non-default option: one cached connection instead of one connection per call
+            mode['thread_safe'] = False
+            ctx.probe('single_connection_store')
         store = W.attach_store(w, path, **mode)
     except (kernel.Deadlock, kernel.StepCap):
         raise
@@ -213,6 +217,8 @@ def _store(D):
     try:
         for o in range(nops):
             kind = ('new', 'resync', 'mutate', 'sync_all', 'view')[D.weighted('work', ('op', o), (4, 2, 3, 1, 1))]
+            if pool and D.flag('work', ('reopen', o), 0.08):
+                kind = 'reopen'
             if kind in ('resync', 'mutate') and not pool:
                 kind = 'new'
             kinds.append(kind)
@@ -225,9 +231,28 @@ def _store(D):
                 from .. import seams
                 seams.take_foreign_lock(sim, path, (3.0, 12.0, 31.0, 70.0)[D.dec('fault', ('foreign_hold', o), 4)])
                 ctx.probe('foreign_lock')
-            if kind == 'new':
+            if kind == 'reopen':
+                # a later session continues on the file: a new Problem with a store in the default mode "write", which loads
+                # the stored individuals into problem.individuals; in a new interpreter the id counter starts again, so
+                # designs recorded from now on may repeat stored ids (synchronising an id again replaces its row)
+                loaded = W.reopen_session(w, path)
+                p = w.problem
+                store = p.data_store
+                pool = list(loaded)
+                if D.dec('work', ('newproc', o), 2) == 1:
+                    Individual.counter = 0
+                    ctx.probe('reopened_in_new_process')
+                ctx.probe('reopened_session')
+                if definition_of(p) != definition:
+                    ctx.violation('problem_definition', site, 'a session that re-opens the file reads the definition %r, the store '
+                                  'was created for %r' % (definition_of(p), definition))
+            elif kind == 'new':
                 ind = Individual(W.gen_vector(w, D, 'work', ('v', o)))
                 k = ('o', o)
+                if pool and D.dec('work', k + ('dupid',), 8) == 1:
+                    # repeated id: this record supersedes an earlier one that is still listed in problem.individuals
+                    ind.id = pool[D.dec('work', k + ('dupi',), len(pool))].id
+                    ctx.probe('repeated_id')
                 ind.vector = [_special(D, ctx, k + ('x', i), x) for i, x in enumerate(ind.vector)]
                 if D.dec('work', k + ('ev',), 3):
                     ind.costs = [_special(D, ctx, k + ('c', j), c) for j, c in enumerate(w.f(W.gen_vector(w, D, 'work', ('v', o))))]
